@@ -46,7 +46,7 @@ struct M {
     sp: usize,
 }
 
-fn measure(kind: usize, live: u64, n: u64, toplevel: bool) -> Option<M> {
+fn measure(kind: usize, live: u64, n: u64, toplevel: bool, sliced: bool) -> Option<M> {
     let mut im = Impl::new();
     let (body, driver): (&str, Option<(&str, &str)>) = match KINDS[kind].1.strip_prefix('@') {
         Some(rest) => {
@@ -90,6 +90,12 @@ fn measure(kind: usize, live: u64, n: u64, toplevel: bool) -> Option<M> {
         for _ in 0..n / 10 {
             let _ = im.eval(&call);
         }
+    } else if sliced {
+        // the same loop through prepare_eval + run_count(500): every slice is shorter than the collector's own poll
+        let call = parse_forms(&format!("(spin {})", n)).ok()?.remove(0);
+        if !matches!(im.eval_sliced(&call, 500, usize::MAX), ImplOut::Value(_)) {
+            return None;
+        }
     } else {
         let call = parse_forms(&format!("(spin {})", n)).ok()?.remove(0);
         if !matches!(im.eval(&call), ImplOut::Value(_)) {
@@ -108,13 +114,17 @@ pub fn run(ctx: &Ctx) -> i32 {
     let mut rep = Report::new("exploration");
     let n = ctx.tier.pick(10_000u64, 100_000u64);
     // (b) growth grid
-    let cells: Vec<(usize, u64, bool)> = {
+    // (kind, live set, successive top-level evaluations, sliced)
+    let cells: Vec<(usize, u64, bool, bool)> = {
         let mut v = vec![];
         for k in 0..KINDS.len() {
             for l in LIVE {
-                v.push((k, *l, false));
+                v.push((k, *l, false, false));
             }
-            v.push((k, 10, true));
+            v.push((k, 10, true, false));
+            if !KINDS[k].1.starts_with('@') && KINDS[k].0 != "failures-caught-at-top" {
+                v.push((k, 10, false, true));
+            }
         }
         v
     };
@@ -123,14 +133,14 @@ pub fn run(ctx: &Ctx) -> i32 {
         1,
         || (),
         |_, acc, i| {
-            let (k, live, top) = cells[i as usize];
-            beat(&format!("growth {} live={} toplevel={}", KINDS[k].0, live, top));
+            let (k, live, top, sliced) = cells[i as usize];
+            beat(&format!("growth {} live={} toplevel={} sliced={}", KINDS[k].0, live, top, sliced));
             // bulk kinds allocate ~100 cells per iteration: a fifth of the iterations is the same amount of garbage
             let scale = if top { 10 } else if KINDS[k].0.starts_with("bulk-") { 5 } else { 1 };
-            let small = measure(k, live, n / scale, top);
-            let large = measure(k, live, 10 * n / scale, top);
+            let small = measure(k, live, n / scale, top, sliced);
+            let large = measure(k, live, 10 * n / scale, top, sliced);
             acc.evals += 2;
-            let key = format!("growth/{}/live{}/{}", KINDS[k].0, live, if top { "toplevel" } else { "loop" });
+            let key = format!("growth/{}/live{}/{}", KINDS[k].0, live, if top { "toplevel" } else if sliced { "sliced-loop" } else { "loop" });
             match (small, large) {
                 (Some(s), Some(l)) => {
                     let ok = l.heap_capacity == s.heap_capacity && l.stack_capacity == s.stack_capacity && l.used_after_gc <= s.used_after_gc + 64 && l.sp == s.sp;
